@@ -143,8 +143,6 @@ def run(ctx):
         "(Parse, ParseConstraint, MatchVersion, Compare, Difference, IsPrerelease), manifest readers/writers, vulns.IsAffected (C18)",
         "not modelled (exercised end-to-end only): relax.patchVulns outer loop, common.ComputePatches, choosePatches",
     ]
-    if pa.get("print_assumptions_closed", 0) < len([t for t in pa["theorems"] if not t.startswith("ex_")]) and pa["ok"]:
-        pass
     binp, out = ctx.harness_build("remed")
     if binp is None:
         ctx.violation({"kind": "harness-build-failed", "log": out[-3000:],
